@@ -203,6 +203,16 @@ class Gather:
         return "%r[%r]" % (self.base, self.idx)
 
 
+class BExp:
+    """A boolean temporary: the (undecided) condition expression a local name was assigned."""
+
+    def __init__(self, node):
+        self.node = node
+
+    def __repr__(self):
+        return "BExp(%s)" % ast.unparse(self.node)
+
+
 class SelfV:
     def __init__(self, cls, attrs=None):
         self.cls = cls
@@ -352,6 +362,12 @@ class Interp:
             return self._expand(v, st, lambda s, val: None)
         if isinstance(node, ast.Assign):
             v = self.ev(node.value, st, frame)
+            if isinstance(v, Opq) and len(node.targets) == 1 and isinstance(node.targets[0], ast.Name) and (
+                    isinstance(node.value, (ast.BoolOp, ast.Compare)) or
+                    (isinstance(node.value, ast.UnaryOp) and isinstance(node.value.op, ast.Not))):
+                tname = node.targets[0].id
+                if not any(isinstance(x, ast.Name) and x.id == tname for x in ast.walk(node.value)):
+                    v = BExp(node.value)  # boolean temporary: decided / assumed through its defining expression
 
             def bind(s, val):
                 for t in node.targets:
@@ -583,6 +599,8 @@ class Interp:
         if isinstance(test, ast.UnaryOp) and isinstance(test.op, ast.Not):
             d = self.decide(test.operand, st, frame)
             return None if d is None else (not d)
+        if isinstance(test, ast.Name) and isinstance(st.env.get(test.id), BExp):
+            return self.decide(st.env[test.id].node, st, frame)
         key = self.atom_key(test, st, frame)
         if key in st.atoms:
             return st.atoms[key]
@@ -656,6 +674,8 @@ class Interp:
         """Add the integer facts implied by ``test`` being ``polarity``."""
         if isinstance(test, ast.UnaryOp) and isinstance(test.op, ast.Not):
             return self.assume(test.operand, not polarity, st, frame)
+        if isinstance(test, ast.Name) and isinstance(st.env.get(test.id), BExp):
+            return self.assume(st.env[test.id].node, polarity, st, frame)
         if isinstance(test, ast.BoolOp):
             conj = isinstance(test.op, ast.And)
             if conj == polarity:
